@@ -191,7 +191,7 @@ fn projections(cx: &mut Ctx) {
         }
     }
     // free functions
-    let t = sm::tsc(&p.file);
+    let t = sm::tsx(&p.file);
     let frees = [
         ("parse", "pubfnparse(source:&str,mode:Mode,source_path:&str)->Result<ast::Mod,ParseError>{parse_starts_at(source,mode,source_path,TextSize::default())}"),
         ("parse_starts_at", "{letlxr=lexer::lex_starts_at(source,mode,offset);parse_tokens(lxr,mode,source_path)}"),
